@@ -178,6 +178,13 @@ pub fn enc_stream_case(bytes: &[u8], pcm: &[i32], cfg_json: String) -> String {
     obj(&[("t", esc("case")), ("kind", esc("enc_stream")), ("profile", esc(profile())), ("src", esc("encoder")), ("bytes", esc(&hex(bytes))), ("expect", ints(pcm)), ("cfg", cfg_json)])
 }
 
+/// A raw frame stream FlacStreamWriter produced, with the parameters and samples of every write, for
+/// the model of the encoder (kind enc_subset): frame k must be Enc.enc_frame_bytes of write k.
+pub fn enc_subset_case(bytes: &[u8], frames: &[SubsetFrame], cfg_json: String) -> String {
+    let fr: Vec<String> = frames.iter().map(|f| obj(&[("rate", f.rate.to_string()), ("ch", f.ch.to_string()), ("bps", f.bps.to_string()), ("samples", ints(&f.samples))])).collect();
+    obj(&[("t", esc("case")), ("kind", esc("enc_subset")), ("profile", esc(profile())), ("src", esc("stream_writer")), ("bytes", esc(&hex(bytes))), ("frames", format!("[{}]", fr.join(","))), ("cfg", cfg_json)])
+}
+
 #[derive(Clone, Debug, PartialEq)]
 pub struct SubsetFrame {
     pub samples: Vec<i32>,
